@@ -148,7 +148,97 @@ func c17Connect(c *vf.Case, ioc *sonic.IO) (*websocket.Stream, int, bool) {
 	return s, r.fd, true
 }
 
+// c17Burst: one transport read brings in dozens of complete frames, the application re-arms its read from inside the
+// handler every time, an application write is in flight now and then, and then the peer falls silent: every frame
+// that arrived is delivered, once, without anything further from the peer.
+func c17Burst(c *vf.Case) {
+	r := c.Rng
+	s, t := newWS(c)
+	if s == nil {
+		return
+	}
+	t.DeferReads = r.Bool()
+	t.DeferWrites = r.Bool()
+	n := r.Range(33, 150)
+	var wire []byte
+	var want [][]byte
+	for i := 0; i < n; i++ {
+		p := asciiBytes(r, r.Range(0, 12))
+		want = append(want, p)
+		wire = append(wire, wsref.Frame{Fin: true, Opcode: wsref.OpText, Payload: p}.Encode()...)
+	}
+	delivered := 0
+	var rerr error
+	useMsg := r.Bool()
+	buf := make([]byte, 256)
+	var arm func()
+	arm = func() {
+		if useMsg {
+			s.AsyncNextMessage(buf, func(err error, k int, _ websocket.MessageType) {
+				if err != nil {
+					rerr = err
+					return
+				}
+				if delivered < n && !bytes.Equal(buf[:k], want[delivered]) {
+					rerr = fmt.Errorf("message %d differs", delivered)
+					return
+				}
+				delivered++
+				if delivered < n {
+					arm()
+				}
+			})
+			return
+		}
+		s.AsyncNextFrame(func(err error, f websocket.Frame) {
+			if err != nil {
+				rerr = err
+				return
+			}
+			if delivered < n && !bytes.Equal(f.Payload(), want[delivered]) {
+				rerr = fmt.Errorf("frame %d differs", delivered)
+				return
+			}
+			delivered++
+			if delivered < n {
+				arm()
+			}
+		})
+	}
+	arm()
+	t.Pump()
+	writes, wdone := 0, 0
+	if r.Bool() {
+		writes = 1
+		s.AsyncWrite([]byte("in flight"), websocket.TypeText, func(error) { wdone++ })
+	}
+	t.Feed(wire) // everything in one transport read
+	for i := 0; i < 10*n+100 && (delivered < n || wdone < writes) && rerr == nil; i++ {
+		if t.Pump() == 0 {
+			break // the transport has nothing more to deliver and the peer stays silent
+		}
+	}
+	c.Count("frame_bursts", 1)
+	c.Count("frames_in_bursts", n)
+	if rerr != nil {
+		c.Failf("burst-read-error/xport", "burst of %d frames in one transport read (message API: %v): %v after %d deliveries", n, useMsg, rerr, delivered)
+		return
+	}
+	if delivered != n {
+		c.Failf("buffered-frames-not-delivered/xport", "burst of %d complete frames in one transport read, read re-armed from inside every handler (message API: %v), peer silent afterwards: only %d were delivered, %d bytes of the burst were never handed to a callback", n, useMsg, delivered, len(wire))
+		return
+	}
+	if wdone != writes {
+		c.Failf("callback-never-invoked/AsyncWrite/xport", "the write in flight during the burst completed %d times", wdone)
+	}
+}
+
 func runC17(c *vf.Case) {
+	if c.Index%25 == 11 {
+		c17Burst(c)
+		c.NonTrivial(fmt.Sprintf("burst/%d", c.Index))
+		return
+	}
 	r := c.Rng
 	var s *websocket.Stream
 	var tr c17Transport
@@ -337,6 +427,9 @@ func runC17(c *vf.Case) {
 		switch {
 		case k <= 5:
 			payload := asciiBytes(r, []int{0, 1, 50, 125, 126, 900}[r.Intn(6)])
+			if r.Chance(1, 25) {
+				payload = asciiBytes(r, r.Range(129<<10, 400<<10)) // a message of hundreds of kilobytes
+			}
 			writeCB = newCB(fmt.Sprintf("AsyncWrite(%d)", len(payload)))
 			appFrames = append(appFrames, c16Expect{wsref.OpText, true, payload, writeCB.what})
 			c.Logf("  %s (read in flight: %v)", writeCB.what, readCB != nil)
